@@ -94,7 +94,114 @@ def r1(ctx) -> None:
     ctx.ob("C04-R1", "reduced/row-to-column-from", ok, rd, rd.node, "reduced K: entry (to, from) sits at [to, from]", construct="array[i, j] = self.matrix[index]")
 
 
-def r2(ctx) -> None:
+def _bool_eval(e, atoms, val):
+    """Truth value of a boolean expression over recognised atoms under the assignment ``val``."""
+    if isinstance(e, ast.BoolOp):
+        vs = [_bool_eval(x, atoms, val) for x in e.values]
+        return all(vs) if isinstance(e.op, ast.And) else any(vs)
+    if isinstance(e, ast.UnaryOp) and isinstance(e.op, ast.Not):
+        return not _bool_eval(e.operand, atoms, val)
+    a = atoms(e)
+    if a is None:
+        raise ValueError(norm(e))
+    name, positive = a
+    return val[name] if positive else not val[name]
+
+
+def chain_shape(ctx, f):
+    """is_sequential's structural test, as a boolean formula per compartment position i over the atoms
+    A = 'column i of the reduced K has exactly one entry', B = 'K[i, i-1] != 0', Z = 'i == 0'.
+    The conjunction of all quantified conditions must be equivalent to  A and (Z or B)."""
+    fl = lib.flow(f, ctx.repo)
+    mats = [d for d in fl.defs_of("matrix") if d.kind == "assign"]
+    mvar = None
+    for v in {n.id for n in ast.walk(f.node) if isinstance(n, ast.Name)}:
+        ds = [d for d in fl.defs_of(v) if d.kind == "assign" and d.value is not None]
+        if len(ds) == 1 and norm(ds[0].value) == f"self.reduced({f.params()[1]})":
+            mvar = v
+    if mvar is None:
+        return False, "no variable holds self.reduced(compartments)", None
+    comp_p = f.params()[1]
+    full_ranges = {f"range({mvar}.shape[1])", f"range({mvar}.shape[0])", f"range(len({mvar}))", f"range(len({comp_p}))"}
+    from1 = {r.replace("range(", "range(1, ") for r in full_ranges}
+    conjuncts = []  # (body expr positive-for-sequential?, polarity, generator var, starts_at_one, node)
+
+    def quantified(e, positive, node):
+        # all(gen) -> body must hold; not any(gen) -> not body must hold
+        if isinstance(e, ast.UnaryOp) and isinstance(e.op, ast.Not):
+            return quantified(e.operand, not positive, node)
+        if isinstance(e, ast.BoolOp) and ((isinstance(e.op, ast.And) and positive) or (isinstance(e.op, ast.Or) and not positive)):
+            return all(quantified(x, positive, node) for x in e.values)
+        if isinstance(e, ast.Call) and isinstance(e.func, ast.Name) and e.func.id in ("all", "any") and len(e.args) == 1 \
+                and isinstance(e.args[0], (ast.GeneratorExp, ast.ListComp)) and len(e.args[0].generators) == 1 and not e.args[0].generators[0].ifs:
+            g = e.args[0]
+            it = norm(g.generators[0].iter)
+            if not isinstance(g.generators[0].target, ast.Name) or it not in full_ranges | from1:
+                return False
+            if (e.func.id == "all") != positive:
+                return False  # `not all(...)` / `any(...)` as a requirement is not a per-position condition
+            conjuncts.append((g.elt, e.func.id == "all", g.generators[0].target.id, it in from1, node))
+            return True
+        return False
+
+    where = None
+    for n in lib.nodes(f, ast.If):
+        if n.body and isinstance(n.body[-1], ast.Return) and isinstance(n.body[-1].value, ast.Constant) and n.body[-1].value.value is False \
+                and not n.orelse and mvar in lib.names_in(n.test):
+            if not quantified(n.test, False, n):
+                return False, f"unrecognised early refusal `{lib.short(n.test, 100)}`", n
+    rets = [r for r in lib.nodes(f, ast.Return) if not isinstance(r.value, ast.Constant)]
+    if len(rets) != 1:
+        return False, "expected one non-constant return", rets[0] if rets else None
+    where = rets[0]
+    if not quantified(fl.inline(rets[0].value, rets[0]), True, rets[0]):
+        return False, "the returned value is not a conjunction of all(...)/not any(...) over the compartment positions", where
+
+    def atoms_for(ivar):
+        count_forms = {f"np.nonzero({mvar}[:, {ivar}])[0].size", f"np.count_nonzero({mvar}[:, {ivar}])", f"len(np.nonzero({mvar}[:, {ivar}])[0])",
+                       f"np.nonzero({mvar}[:, {ivar}])[0].shape[0]"}
+        sub_forms = {f"{mvar}[{ivar}, {ivar} - 1]", f"{mvar}[{ivar}][{ivar} - 1]"}
+
+        def atoms(e):
+            if not (isinstance(e, ast.Compare) and len(e.ops) == 1):
+                return None
+            l, r, op = norm(e.left), e.comparators[0], e.ops[0]
+            rv = r.value if isinstance(r, ast.Constant) else None
+            if l in count_forms and rv == 1 and isinstance(op, (ast.Eq, ast.NotEq)):
+                return "A", isinstance(op, ast.Eq)
+            if l in sub_forms and rv == 0 and isinstance(op, (ast.Eq, ast.NotEq)):
+                return "B", isinstance(op, ast.NotEq)
+            if l == ivar and rv == 0 and isinstance(op, (ast.Eq, ast.NotEq)):
+                return "Z", isinstance(op, ast.Eq)
+            if l == ivar and rv == 0 and isinstance(op, ast.Gt):
+                return "Z", False
+            if l == ivar and rv == 1 and isinstance(op, (ast.Lt, ast.GtE)):
+                return "Z", isinstance(op, ast.Lt)
+            return None
+        return atoms
+
+    import itertools
+    try:
+        for a_, b_, z_ in itertools.product((False, True), repeat=3):
+            val = {"A": a_, "B": b_, "Z": z_}
+            got = True
+            for body, is_all, ivar, starts1, _ in conjuncts:
+                v = _bool_eval(body, atoms_for(ivar), val)
+                v = v if is_all else not v
+                if starts1:
+                    v = v or z_  # position 0 is not quantified over
+                got = got and v
+            want = a_ and (z_ or b_)
+            if got != want:
+                return False, f"for A={a_} (one entry in column i), B={b_} (K[i,i-1] != 0), Z={z_} (i == 0) the test accepts={got}, required={want}", where
+    except ValueError as e:
+        return False, f"condition `{e}` is neither a column count, the sub-diagonal entry K[i, i-1] nor a test of the position", where
+    if not conjuncts:
+        return False, "no per-position condition found", where
+    return True, "", where
+
+
+def r2(ctx, rule: str = "C04-R2") -> None:
     repo = ctx.repo
     f = ctx.fn(KM, "KMatrix.is_sequential")
     icp = f.params()[2]
@@ -110,30 +217,28 @@ def r2(ctx) -> None:
                     pos_sensitive = True
             if isinstance(sub, ast.Call) and norm(sub.func) in ("np.sum", "sum") and sub.args and norm(sub.args[0]) == icp:
                 sums = True
-    ctx.ob("C04-R2", "is_sequential/start-compartment-pinned", pos_sensitive, f, early[0] if early else f.node,
+    ctx.ob(rule, "is_sequential/start-compartment-pinned", pos_sensitive, f, early[0] if early else f.node,
            "the closed-form A-matrix ignores the initial concentration and assumes all population starts in the first compartment; "
            "the guard must test initial_concentration[0] (a sum or any other permutation invariant reducer accepts [0,1,0])",
            construct=lib.short(early[0], 110) if early else "def is_sequential")
-    ctx.ob("C04-R2", "is_sequential/total-population-one", sums, f, early[0] if early else f.node, "the total population must be 1")
-    rets = [r for r in lib.nodes(f, ast.Return) if not isinstance(r.value, ast.Constant)]
-    ok = False
-    for r in rets:
-        t = norm(r.value).replace(" ", "")
-        ok = "np.nonzero(matrix[:,i])[0].size!=1" in t and "matrix[i,i-1]==0" in t and t.startswith("notany(")
-    ctx.ob("C04-R2", "is_sequential/chain-shape", ok, f, rets[0] if rets else f.node,
-           "unibranched: every column of the reduced K has exactly one entry and compartment i is fed by compartment i-1")
+    ctx.ob(rule, "is_sequential/total-population-one", sums, f, early[0] if early else f.node, "the total population must be 1")
+    ok, why, where = chain_shape(ctx, f)
+    ctx.ob(rule, "is_sequential/chain-shape", ok, f, where or f.node,
+           "unibranched *in declaration order*: every column of the reduced K has exactly one entry and compartment i (i >= 1) is fed by "
+           "compartment i-1; the closed form and `rates` read the chain off the compartment order, so a chain declared out of order "
+           "must take the general path", [why] if why else None, construct=lib.short(where, 140) if where is not None else "def is_sequential")
     am = ctx.fn(KM, "KMatrix.a_matrix")
     rets = lib.nodes(am, ast.Return)
     p = am.params()
     ok = len(rets) == 1 and isinstance(rets[0].value, ast.IfExp) and norm(rets[0].value.test) == f"self.is_sequential({p[1]}, {p[2]})" and \
         norm(rets[0].value.body) == f"self.a_matrix_sequential({p[1]})" and norm(rets[0].value.orelse) == f"self.a_matrix_general({p[1]}, {p[2]})"
-    ctx.ob("C04-R2", "a_matrix/selected-by-guard", ok, am, rets[0] if rets else am.node,
+    ctx.ob(rule, "a_matrix/selected-by-guard", ok, am, rets[0] if rets else am.node,
            "the closed form is used iff is_sequential(compartments, initial_concentration), the general eigen path otherwise")
     rt = ctx.fn(KM, "KMatrix.rates")
     g = next((n for n in lib.nodes(rt, ast.If)), None)
     p = rt.params()
     ok = g is not None and norm(g.test) == f"self.is_sequential({p[1]}, {p[2]})"
-    ctx.ob("C04-R2", "rates/same-guard", ok, rt, g or rt.node, "the rates are ordered like the A-matrix: selected by the same guard with the same arguments")
+    ctx.ob(rule, "rates/same-guard", ok, rt, g or rt.node, "the rates are ordered like the A-matrix: selected by the same guard with the same arguments")
 
 
 def r3(ctx) -> None:
@@ -219,7 +324,7 @@ def r4(ctx) -> None:
         norm(comps[0].generators[0].iter) == "range(len(self.compartments))" and not comps[0].generators[0].ifs
     ctx.ob("C04-R4", "parallel/k-matrix", ok, pk, comps[0] if comps else pk.node, "parallel decays: K[(c_i, c_i)] = rate_i for every compartment")
     pi = ctx.fn(DP, "DecayParallelMegacomplex.get_initial_concentration")
-    txt = norm(pi.node)
+    txt = lib.xfn(pi, ctx.repo)
     ok = "np.ones(len(self.compartments), dtype=np.float64)" in txt.replace("(len(self.compartments))", "len(self.compartments)") and "initial_concentration /= initial_concentration.size" in txt
     ctx.ob("C04-R4", "parallel/initial-concentration", ok, pi, pi.node, "parallel decays start with equal population in every compartment (normalised to 1)",
            construct="ones(n) / n when normalized")
@@ -235,7 +340,7 @@ def r4(ctx) -> None:
     ok = len(last) == 1 and norm(last[0].targets[0].slice).replace(" ", "") == "(self.compartments[-1],self.compartments[-1])" and norm(last[0].value) == "self.rates[-1]"
     ctx.ob("C04-R4", "sequential/last-decays", ok, sk, last[0] if last else sk.node, "the last compartment decays with the last rate")
     si = ctx.fn(DS, "DecaySequentialMegacomplex.get_initial_concentration")
-    txt = norm(si.node)
+    txt = lib.xfn(si, ctx.repo)
     ok = "np.zeros(len(self.compartments), dtype=np.float64)" in txt.replace("(len(self.compartments))", "len(self.compartments)") and "initial_concentration[0] = 1" in txt
     ctx.ob("C04-R4", "sequential/starts-in-first", ok, si, si.node, "sequential: all population starts in the first compartment", construct="zeros(n); j[0] = 1")
     sa = ctx.fn(DS, "DecaySequentialMegacomplex.get_a_matrix")
@@ -289,7 +394,7 @@ def r5(ctx) -> None:
     ctx.ob("C04-R5", "a_matrix_general/formula", ok, ag, rets[0] if rets else ag.node, "A = (V @ diag(V^-1 j)).T with V the eigenvectors from eigen(compartments)")
     cg = ctx.fn(KM, "calculate_gamma")
     rets = lib.nodes(cg, ast.Return)
-    ok = len(rets) == 1 and norm(rets[0].value) == f"np.diag(solve({cg.params()[0]}, {cg.params()[1]}))"
+    ok = len(rets) == 1 and lib.xnorm(lib.flow(cg, ctx.repo), rets[0].value, rets[0]) == f"np.diag(solve({cg.params()[0]}, {cg.params()[1]}))"
     ctx.ob("C04-R5", "calculate_gamma/formula", ok, cg, rets[0] if rets else cg.node, "gamma = diag(V^-1 j) (solve, not an explicit inverse)")
     rd = ctx.fn(DUT, "retrieve_decay_associated_data")
     flr = lib.flow(rd, repo)
